@@ -44,6 +44,7 @@ type Op struct {
 }
 
 type Case struct {
+	ErrStyle string `json:"err_style,omitempty"` // how the storage words its own refusals (vkit.Store.refuse)
 	Router  string            `json:"router"`
 	SignAlg string            `json:"sign_alg"`
 	Clients []vkit.ClientSpec `json:"clients"`
@@ -238,6 +239,15 @@ func genExchange(t *rapid.T, nClients int) Op {
 }
 
 func genCase(t *rapid.T) Case {
+	c := genCase0(t)
+	// drawn last so that the rest of the case does not depend on it
+	if rapid.Bool().Draw(t, "errstyled") {
+		c.ErrStyle = rapid.SampledFrom(vkit.ErrStyles).Draw(t, "errstyle")
+	}
+	return c
+}
+
+func genCase0(t *rapid.T) Case {
 	var c Case
 	c.Router = rapid.SampledFrom([]string{"provider", "legacy"}).Draw(t, "router")
 	c.SignAlg = rapid.SampledFrom([]string{"RS256", "RS256", "RS256", "ES256", "PS256", "EdDSA"}).Draw(t, "signalg")
@@ -822,7 +832,7 @@ func run(c Case) (res *vkit.Result) {
 	regs = append(regs, &e.rs)
 	e.signKey = vkit.Key(signKeys[c.SignAlg])
 	// every token also names the resource server "rs" as audience, which lets it introspect tokens of public clients too
-	e.st = vkit.NewStore(regs, vkit.SignKeySpec{KeyName: signKeys[c.SignAlg], Alg: c.SignAlg, KID: "sig1"}, vkit.StorePolicy{ExtraAudience: []string{rsID}})
+	e.st = vkit.NewStore(regs, vkit.SignKeySpec{KeyName: signKeys[c.SignAlg], Alg: c.SignAlg, KID: "sig1"}, vkit.StorePolicy{ExtraAudience: []string{rsID}, ErrStyle: c.ErrStyle})
 	e.sut = vkit.MustBuild(vkit.DefaultProviderSpec(c.Router), e.st)
 	e.ag = vkit.NewAgent(e.sut)
 
